@@ -639,7 +639,7 @@ def check_machine(case):
 def build(tier):
     cells = [
         Cell("bus/state_machine", st.integers(1, 2**30).map(lambda s_: {"seed": s_, "examples": 60 if tier == "quick" else 1500}),
-             check_machine, lambda c: True, None, quick=1, thorough=4, shrink=False, shards_thorough=4),
+             check_machine, lambda c: True, None, quick=1, thorough=4, shrink=False, shards_thorough=4, case_limit=2 * 3600),
         Cell("bus/scenario", scenario(), check_bus, bus_nontrivial, bus_classify, quick=500, thorough=12000,
              build=lambda: mods()),
         Cell("estimator/scheduling", est_scenario(), check_estimator, est_nontrivial, est_classify, quick=500, thorough=12000),
